@@ -31,7 +31,7 @@ ASSUMPTIONS = ["mtime is advanced by whole seconds through os.utime (logical clo
                "CRC32 collisions between different generated sources are not sampled"]
 REQUIRED_MONITORS = ["evaluates_current_sources", "source_to_library_injective", "cache_listing_is_image"]
 REQUIRED_BUCKETS = {"quick": ["op:edit_py_const", "op:edit_py_default", "op:edit_inc", "op:edit_template", "op:dtype",
-                              "op:revert", "op:edit_source_list", "op:load_with_other_integration_size", "loader:core", "loader:sasview", "loader:composite", "loader:nested", "loader:modelpath", "cache-directory:deep-path", "include-names:same-as-library-files", "eval:while-definition-broken", "eval:same_process", "eval:fresh_process", "revert_then_same_process",
+                              "op:revert", "op:edit_source_list", "op:load_with_other_integration_size", "loader:core", "loader:sasview", "loader:composite", "loader:nested", "loader:modelpath", "cache-directory:deep-path", "include-names:same-as-library-files", "op:single-request-with-single-libraries-switched-off", "eval:while-definition-broken", "eval:same_process", "eval:fresh_process", "revert_then_same_process",
                               "default_only_edit_then_same_process", "clock:past", "clock:future", "clock:near-now", "clock:subsecond"]}
 REQUIRED_BUCKETS["thorough"] = REQUIRED_BUCKETS["quick"]
 HERE = os.path.dirname(os.path.abspath(__file__))
@@ -141,8 +141,8 @@ class World:
                                        stdin=subprocess.PIPE, stdout=subprocess.PIPE, stderr=subprocess.PIPE, text=True,
                                        cwd=self.root)
 
-    def ask(self, proc, dtype, via="core", ngauss=None):
-        proc.stdin.write(json.dumps({"op": "eval", "dtype": dtype, "via": via, "ngauss": ngauss}) + "\n")
+    def ask(self, proc, dtype, via="core", ngauss=None, noflag=False):
+        proc.stdin.write(json.dumps({"op": "eval", "dtype": dtype, "via": via, "ngauss": ngauss, "noflag": noflag}) + "\n")
         proc.stdin.flush()
         while True:
             line = proc.stdout.readline()
@@ -151,15 +151,15 @@ class World:
             if line.startswith("RTM17 "):
                 return json.loads(line[6:])
 
-    def eval_same(self, dtype, via="core", ngauss=None):
+    def eval_same(self, dtype, via="core", ngauss=None, noflag=False):
         if self.server is None or self.server.poll() is not None:
             self.start_server()
-        return self.ask(self.server, dtype, via, ngauss)
+        return self.ask(self.server, dtype, via, ngauss, noflag)
 
-    def eval_fresh(self, dtype, via="core", ngauss=None):
+    def eval_fresh(self, dtype, via="core", ngauss=None, noflag=False):
         p = subprocess.Popen([core.PY, os.path.join(HERE, "_c17_proc.py"), self.files["py"]], env=self.env(),
                              stdin=subprocess.PIPE, stdout=subprocess.PIPE, stderr=subprocess.PIPE, text=True, cwd=self.root)
-        r = self.ask(p, dtype, via, ngauss)
+        r = self.ask(p, dtype, via, ngauss, noflag)
         try:
             p.stdin.write('{"op": "quit"}\n')
             p.stdin.flush()
@@ -203,6 +203,10 @@ def gen_history(rng, h):
     ops += [["eval_size", "same"], ["eval", "same"], ["eval_size", "same"], ["edit_py_const", None], ["eval", "same"],
             ["edit_source_list", None], ["eval", "same"], ["edit_inc", None], ["eval", "same"], ["edit_source_list", None],
             ["eval", "same"], ["edit_py_const", None], ["eval", "same"], ["edit_inc", None], ["eval", "same"], ["eval", "fresh"]]
+    # the same source state asked for in single precision with the single-precision switch off and on, in both orders
+    if h % 3 == 0:
+        ops += [["dtype", "single"], ["eval_noflag", "fresh"], ["eval", "fresh"], ["edit_py_const", None], ["eval", "fresh"],
+                ["eval_noflag", "fresh"], ["eval", "same"], ["dtype", "double"], ["eval", "same"]]
     if h % 2 == 0:
         ops += [["edit_inc", None], ["eval", "same"], ["edit_py_default", None], ["eval", "same"], ["revert", "inc"],
                 ["eval", "same"], ["eval", "fresh"]]
@@ -276,7 +280,7 @@ def run_case(case, rec):
                     reverts += 1
                     last_edit = "revert"
                 op = "revert"
-            if op not in ("eval", "eval_size"):
+            if op not in ("eval", "eval_size", "eval_noflag"):
                 rec.bucket("op:" + op)
                 continue
             ngauss = None
@@ -285,7 +289,14 @@ def run_case(case, rec):
             if op == "eval_size":
                 ngauss, via = [20, 150][step % 2], "core"
                 rec.bucket("op:load_with_other_integration_size")
-            r = w.eval_same(dtype, via, ngauss) if arg == "same" else w.eval_fresh(dtype, via, ngauss)
+            noflag = (op == "eval_noflag")
+            dtype_used = dtype
+            if noflag:
+                # a single-precision request while single-precision libraries are switched off (the documented switch
+                # kerneldll.ALLOW_SINGLE_PRECISION_DLLS = False): served in double precision, against the same cache
+                via, dtype_used = "core", "single"
+                rec.bucket("op:single-request-with-single-libraries-switched-off")
+            r = w.eval_same(dtype_used, via, ngauss, noflag) if arg == "same" else w.eval_fresh(dtype_used, via, ngauss, noflag)
             rec.bucket("eval:%s_process" % arg, "loader:" + via)
             if arg == "same" and last_edit == "revert":
                 rec.bucket("revert_then_same_process")
@@ -293,7 +304,8 @@ def run_case(case, rec):
                 rec.bucket("default_only_edit_then_same_process")
             s = w.state
             expected = [float(s["K"]), float(s["V"] if s["S"] == 1 else s["V2"]), float(s["T"]),
-                        FSIZE[dtype] if via in ("core", "composite", "nested", "modelpath") else 8.0, float(s["D"]), float(ngauss or 76)]
+                        (8.0 if noflag else FSIZE[dtype_used]) if via in ("core", "composite", "nested", "modelpath") else 8.0,
+                        float(s["D"]), float(ngauss or 76)]
             ctx = {"step": step, "history": ops[:step + 1][-10:], "dtype": dtype, "process": arg,
                    "expected_versions": dict(zip(["py_const", "include", "template", "float_size", "py_default", "gauss_n"], expected))}
             if w.broken:
